@@ -170,7 +170,53 @@ def o_alignapp(a):
     return not bad, dict(max_abs_err=worst, mismatching=bad[:4])
 
 
-ORACLES = dict(align=o_align, spurmrot=o_spurmrot, detphi=o_detphi, rotation=o_rotation, alignapp=o_alignapp)
+def o_alignmaps(a):
+    """xpstokesalign with uniform model maps (QU or PDA), rewritten at the same paths between runs with another angle and another overall scale of
+    the Stokes maps (polarized surface brightness in physical units is ~1e-14): the reference angle is known without reading the maps back"""
+    import os
+    import evfile
+    from astropy.io import fits
+    from common import scratch
+    from ixpeobssim.bin.xpstokesalign import xpstokesalign, PARSER
+    g = numpy.random.default_rng(a['seed'])
+    ra0, dec0 = a['centre']
+    bad, worst = [], 0.
+    with scratch() as d:
+        n = 300
+        p = os.path.join(d, 'f.fits')
+        evfile.write_event_file(p, numpy.sort(g.uniform(0., 1000., n)), tstart=0., tstop=1000., ra0=ra0, dec0=dec0, pi=g.integers(50, 200, n),
+                                phi=g.uniform(-math.pi, math.pi, n), ra=ra0 + g.normal(0, 0.015, n) / math.cos(math.radians(dec0)), dec=dec0 + g.normal(0, 0.015, n))
+        ny = nx = 128
+        h = fits.Header()
+        h['CTYPE1'], h['CTYPE2'] = 'RA---TAN', 'DEC--TAN'
+        h['CRPIX1'], h['CRPIX2'] = 0.5 * (nx + 1), 0.5 * (ny + 1)
+        h['CRVAL1'], h['CRVAL2'] = ra0, dec0
+        h['CDELT1'], h['CDELT2'] = -6. / 3600., 6. / 3600.
+        for step, (ang, scale) in enumerate(a['steps']):
+            A = math.radians(ang)
+            if a['mode'] == 'QU':
+                arrs = (('q', numpy.full((ny, nx), scale * 0.4 * math.cos(2. * A))), ('u', numpy.full((ny, nx), scale * 0.4 * math.sin(2. * A))))
+            else:
+                arrs = (('pd', numpy.full((ny, nx), 0.4)), ('pa', numpy.full((ny, nx), A)))
+            maps = []
+            for nm, arr in arrs:
+                mp = os.path.join(d, '%s.fits' % nm)                      # the same paths at every step
+                fits.PrimaryHDU(data=arr, header=h).writeto(mp, overwrite=True)
+                maps.append(mp)
+            o = xpstokesalign(**PARSER.parse_args([p, '--mode', a['mode'], '--overwrite', 'True', '--suffix', 'al%d' % step, '--modelfiles'] + maps).__dict__)[0]
+            with fits.open(p) as f0, fits.open(o) as f1:
+                q0, u0 = numpy.array(f0['EVENTS'].data['Q'], dtype=float), numpy.array(f0['EVENTS'].data['U'], dtype=float)
+                q1, u1 = numpy.array(f1['EVENTS'].data['Q'], dtype=float), numpy.array(f1['EVENTS'].data['U'], dtype=float)
+            phi = 0.5 * numpy.arctan2(u0, q0)
+            eq, eu = 2. * numpy.cos(2. * (phi - A)), 2. * numpy.sin(2. * (phi - A))
+            err = float(max(numpy.abs(q1 - eq).max(), numpy.abs(u1 - eu).max()))
+            worst = max(worst, err)
+            if err > 1e-4:
+                bad.append(dict(step=step, model_angle_deg=ang, map_scale=scale, max_abs_err=err))
+    return not bad, dict(max_abs_err=worst, mismatching=bad)
+
+
+ORACLES = dict(alignmaps=o_alignmaps, align=o_align, spurmrot=o_spurmrot, detphi=o_detphi, rotation=o_rotation, alignapp=o_alignapp)
 
 
 def oracle(chk, budget=1):
@@ -190,6 +236,9 @@ def oracle(chk, budget=1):
         for roll in rolls:
             phi = numpy.concatenate([g.uniform(-math.pi, math.pi, 50), [math.pi, -math.pi, 0., math.pi - 1e-12]])
             run_oracle(chk, 'detphi', dict(phi=phi.tolist(), du=du, roll=float(roll)), nontrivial=roll != 0.)
+    for mode in ('QU', 'PDA'):
+        run_oracle(chk, 'alignmaps', dict(seed=int(g.integers(1, 10 ** 6)), centre=(float(g.uniform(5., 355.)), float(g.uniform(-60., 60.))), mode=mode,
+                                          steps=[(25., 1.), (70., 1e-2), (-40., 4e-14), (float(g.uniform(-85., 85.)), float(10 ** g.uniform(-16, 0)))]))
     for j in range(3 * budget if chk.tier == 'quick' else 12 * budget):
         centres = [(float(g.uniform(5., 355.)), float(g.uniform(-70., 70.))) for _ in range(3)]
         explicit = j % 3 == 2
